@@ -74,6 +74,7 @@ Emit == phase = "done" =>
           PrintT(<<"CASE", ToJson([decl |-> IF sctx.decl = "" THEN "" ELSE sctx.decl \o Expr \o DeclTail,
                                    body |-> IF sctx.decl = "" THEN sctx.pre \o Expr \o sctx.post ELSE sctx.pre,
                                    off |-> off.id, accept |-> Accept, depth |-> Len(ectx),
+                                   infstr |-> \E i \in 1..Len(ectx) : ectx[i].pre \in {"len(f\"{", "len(f\"a{1}b{"},
                                    inner |-> IF ectx = <<>> THEN "" ELSE ectx[Len(ectx)].pre \o "_" \o ectx[Len(ectx)].post,
                                    stmt |-> IF sctx.decl = "" THEN sctx.pre ELSE sctx.decl])>>)
 =============================================================================
